@@ -11,6 +11,7 @@ import (
 
 //verif:stub github.com/nuts-foundation/nuts-node/vcr/pe.matchCredential => hMatchCredential
 //verif:stub github.com/nuts-foundation/nuts-node/vcr/pe.vcEqual => hVCEqual
+//verif:stub github.com/nuts-foundation/nuts-node/vcr/pe.matchFormat => hMatchFormat
 
 // ---- constraint matching as a verdict matrix -----------------------------------------------------
 // Whether credential c satisfies the constraints of input descriptor d (matchCredential: jsonpath, filters,
@@ -59,6 +60,41 @@ func hMatchCredential(descriptor InputDescriptor, credential vc.VerifiableCreden
 		return false, nil
 	}
 	return false, errors.New("harness: constraint evaluation failed")
+}
+
+// hMatchFormat: whether a credential has one of the designated formats/algorithms (jws parsing, proof
+// decoding: out of scope; the real matchFormat on ldp_vc credentials: H12f) is a functional verdict per
+// (format designation, credential) as well. A designation is identified by its only key; no designation: true.
+func hMatchFormat(format *PresentationDefinitionClaimFormatDesignations, credential vc.VerifiableCredential) bool {
+	if format == nil || len(*format) == 0 {
+		return true
+	}
+	for name := range *format {
+		return hVerdict("format-of-"+name, hTag(credential)) == hYes
+	}
+	return false
+}
+
+func hFormatDesignation(name string) *PresentationDefinitionClaimFormatDesignations {
+	return &PresentationDefinitionClaimFormatDesignations{name: nil}
+}
+
+// hSatisfies: credential c is known to satisfy descriptor d of def: constraints, the definition's format
+// designation and the descriptor's.
+func hSatisfies(def PresentationDefinition, d *InputDescriptor, c vc.VerifiableCredential) bool {
+	if v, asked := hKnownVerdict(d.Id, hTag(c)); !asked || v != hYes {
+		return false
+	}
+	for _, f := range []*PresentationDefinitionClaimFormatDesignations{def.Format, d.Format} {
+		if f != nil {
+			for name := range *f {
+				if v, asked := hKnownVerdict("format-of-"+name, hTag(c)); !asked || v != hYes {
+					return false
+				}
+			}
+		}
+	}
+	return true
 }
 
 // hVCEqual: vcEqual compares the JSON serialisations; harness credentials differ exactly in id and raw form.
@@ -189,8 +225,21 @@ func hHasGroup(d *InputDescriptor, g string) bool {
 // and - if withReqs - group memberships (subset of {A,B} per descriptor) and 1..reqs submission requirements.
 func hGenDefinition(nd int, withReqs bool, reqs, shapes, nest, malformed int) PresentationDefinition {
 	def := PresentationDefinition{Id: "def"}
+	formats := vParam("formats", 1) // 1: the definition and descriptor d0 may designate formats
+	if formats > 0 && nd > 0 {
+		vTag("definition_format")
+		if vBool() {
+			def.Format = hFormatDesignation("def")
+		}
+	}
 	for j := 0; j < nd; j++ {
 		d := &InputDescriptor{Id: hDescIDs[j], Constraints: &Constraints{}}
+		if formats > 0 && j == 0 {
+			vTag("descriptor_format")
+			if vBool() {
+				d.Format = hFormatDesignation(d.Id)
+			}
+		}
 		if withReqs && hAllInGroupA {
 			d.Group = []string{"A"}
 		} else if withReqs {
@@ -328,11 +377,19 @@ func hDefinitionBroken(def PresentationDefinition) bool {
 
 // hFirstMatch: the credential (index into creds) matching descriptor d that matching selects: the first
 // one with verdict yes. evalError: an evaluation error comes first.
-func hFirstMatch(d string, creds []vc.VerifiableCredential) (idx int, evalError bool) {
+func hFirstMatch(def PresentationDefinition, d string, creds []vc.VerifiableCredential) (idx int, evalError bool) {
+	var desc *InputDescriptor
+	for _, x := range def.InputDescriptors {
+		if x.Id == d {
+			desc = x
+		}
+	}
 	for i, c := range creds {
 		switch hVerdict(d, hTag(c)) {
 		case hYes:
-			return i, false
+			if hMatchFormat(def.Format, c) && hMatchFormat(desc.Format, c) {
+				return i, false
+			}
 		case hEvalError:
 			return -1, true
 		}
@@ -346,7 +403,7 @@ func hSharedCredential(def PresentationDefinition, creds []vc.VerifiableCredenti
 	for _, c := range creds {
 		n := 0
 		for _, d := range def.InputDescriptors {
-			if v, ok := hKnownVerdict(d.Id, hTag(c)); ok && v == hYes {
+			if hSatisfies(def, d, c) {
 				n++
 			}
 		}
@@ -372,8 +429,7 @@ func hCheckSelection(id string, def PresentationDefinition, wallet []vc.Verifiab
 			c := vcs[p]
 			i := hCredIndex(c)
 			vAssert(i >= 0 && i < len(wallet) && c.Raw() == wallet[i].Raw(), id+".credential_from_wallet: selected credential is not a wallet credential")
-			v, asked := hKnownVerdict(m.Id, hTag(c))
-			vAssert(asked && v == hYes, id+".mapped_credential_satisfies_descriptor: the credential at the mapped position does not satisfy the descriptor's constraints")
+			vAssert(hSatisfies(def, def.InputDescriptors[j], c), id+".mapped_credential_satisfies_descriptor: the credential at the mapped position does not satisfy the descriptor's constraints and format designations")
 			vAssert(m.Format == c.Format(), id+".mapping_format: mapping format is not the credential's format")
 		}
 	}
@@ -421,7 +477,7 @@ func H12d() {
 	avail := make([]bool, nd)
 	evalError := false
 	for j, d := range def.InputDescriptors {
-		i, e := hFirstMatch(d.Id, wallet)
+		i, e := hFirstMatch(def, d.Id, wallet)
 		if e {
 			evalError = true
 			break
